@@ -3,7 +3,7 @@ import Enc.Lemmas.ProtoWireRec
 # C12, value level: the reference decoder maps the bytes `Marshal` produces back to the value
 
 Universe (`tyOK`): messages whose fields are bool / integer (`int int32 int64 uint uint32 uint64`; plain, zigzag32/64
-on signed, fixed32/64 on `uint32/uint64`) / `float32 float64` / `string` / `[]byte` / nested messages; optional fields
+on signed, fixed32/64 on `uint32/uint64`, sfixed32/64 = fixed32/64 on `int32/int64`) / `float32 float64` / `string` / `[]byte` / nested messages; optional fields
 `*T` (`T` a scalar other than `[]byte`, or a message); repeated fields `[]T` (`T` a scalar, `[]byte` or a message).
 Main results at the end of the file:
 
@@ -404,15 +404,21 @@ theorem decode_scalar_exact (t : Ty) (o : FieldOpt) (v : Val) (wz : Bool) (cur :
         simp only [intWire, hf, IntKind.signed, Bool.false_eq_true, if_false, if_true, decodeOne]
         split <;> simp [unzigzag_zigzag, toInt64_ofInt64 i h1 h2, hv]
       case i32 =>
-        have hf : o.fixed = false := by simpa [optOK] using ho
         obtain ⟨h1, h2⟩ := inRange_signed _ i (by simp) hv
-        simp only [intWire, hf, IntKind.signed, Bool.false_eq_true, if_false, if_true, decodeOne]
-        split <;> simp [unzigzag_zigzag, toInt64_ofInt64 i h1 h2, hv]
+        by_cases hf : o.fixed = true
+        · have hr := inRange_spec _ i hv
+          simp only [IntKind.signed, IntKind.bits, if_true, Nat.reduceSub] at hr
+          simp only [intWire, hf, IntKind.bits, if_true]
+          exact decodeOne_sfixed32 fuel o hf i hr.1 hr.2 cur
+        · simp only [intWire, hf, IntKind.signed, Bool.false_eq_true, if_false, if_true, decodeOne]
+          split <;> simp [unzigzag_zigzag, toInt64_ofInt64 i h1 h2, hv]
       case i64 =>
-        have hf : o.fixed = false := by simpa [optOK] using ho
         obtain ⟨h1, h2⟩ := inRange_signed _ i (by simp) hv
-        simp only [intWire, hf, IntKind.signed, Bool.false_eq_true, if_false, if_true, decodeOne]
-        split <;> simp [unzigzag_zigzag, toInt64_ofInt64 i h1 h2, hv]
+        by_cases hf : o.fixed = true
+        · simp only [intWire, hf, IntKind.bits, if_true, Nat.reduceEqDiff, if_false]
+          exact decodeOne_sfixed64 fuel o hf i h1 h2 cur
+        · simp only [intWire, hf, IntKind.signed, Bool.false_eq_true, if_false, if_true, decodeOne]
+          split <;> simp [unzigzag_zigzag, toInt64_ofInt64 i h1 h2, hv]
       case uint =>
         have hf : o.fixed = false := by simpa [optOK] using ho
         obtain ⟨h1, h2⟩ := inRange_unsigned _ i (by simp) hv
@@ -424,14 +430,14 @@ theorem decode_scalar_exact (t : Ty) (o : FieldOpt) (v : Val) (wz : Bool) (cur :
         have e : ((i.toNat : Nat) : Int) = i := by omega
         by_cases hf : o.fixed = true
         · simp only [intWire, hf, IntKind.bits, if_true, decodeOne]
-          rw [leNat_natLE_four _ (by simp only [Int.reducePow] at h3; omega), e]
+          rw [ofInt32_nonneg i h1 h3, leNat_natLE_four _ (by simp only [Int.reducePow] at h3; omega), e]
         · simp only [intWire, hf, IntKind.signed, Bool.false_eq_true, if_false, decodeOne, e, hv, if_true]
       case u64 =>
         obtain ⟨h1, h2⟩ := inRange_unsigned _ i (by simp) hv
         have e : ((i.toNat : Nat) : Int) = i := by omega
         by_cases hf : o.fixed = true
         · simp only [intWire, hf, IntKind.bits, if_true, Nat.reduceEqDiff, if_false, decodeOne]
-          rw [leNat_natLE_eight _ (by simp only [Int.reducePow] at h2; omega), e]
+          rw [ofInt64_nonneg i h1 h2, leNat_natLE_eight _ (by simp only [Int.reducePow] at h2; omega), e]
         · simp only [intWire, hf, IntKind.signed, Bool.false_eq_true, if_false, decodeOne, e, hv, if_true]
     · cases hp
   case f32 =>
@@ -888,8 +894,9 @@ theorem marshal_struct (fs : Fields) (v : Val) :
   simp only [marshal, codecOf]
 
 /-- **C12, value level, scalar messages** (literal equality).  Universe: message types whose fields are bool /
-integer (`int int32 int64 uint uint32 uint64`; plain, zigzag32/64 on signed, fixed32/64 on `uint32/uint64`) /
-`float32 float64` / `string` / `[]byte` / nested messages of the same kind.  The reference decoder maps the bytes
+integer (`int int32 int64 uint uint32 uint64`; plain, zigzag32/64 on signed, fixed32/64 on `uint32/uint64`,
+sfixed32/64 = fixed32/64 on `int32/int64`) / `float32 float64` / `string` / `[]byte` / nested messages of the same kind.
+The reference decoder maps the bytes
 `Marshal` produces back to the very same value.
 
 Hypotheses: `tyOK` (type in the universe; struct tags read alike by both sides; field numbers 1…65535, distinct),
@@ -921,7 +928,7 @@ theorem decode_marshal_scalar_canonical (fs : Fields) (v : Val)
 
 /-- **C12, value level, with optional and repeated fields** (equality up to `canonical`, as the harness compares).
 Universe: as `decode_marshal_scalar`, plus fields `*T` (`T` bool / integer / float / string / message; the tag
-options of `T` carry over, incl. fixed32/fixed64 on `*uint32/*uint64/*float32/*float64` = `pointersTo`) and `[]T`
+options of `T` carry over, incl. fixed32/fixed64 on `*uint32/*uint64/*int32/*int64/*float32/*float64` = `pointersTo`) and `[]T`
 (`T` bool / integer / float / string / `[]byte` / message), nested arbitrarily through messages.
 
 `_partial`: still excluded
